@@ -842,6 +842,7 @@ package kcache
 /*@ func kcache.newWatchSession
   props C04
   fresh result
+  requires (and (not (= {log} vnil)) (not (= {ctx} vnil)))
   ensures (not (= result vnil))
 @*/
 /*@ func (*kcache._watcher).scheduleRetry
@@ -876,7 +877,7 @@ package kcache
   at recv(resetch) set resetSeen := true
   at recv(resetch) set gver := $val
   at recv(retrych) set gver := $val
-  at recv(events) assume [session-events-are-non-nil-and-carry-objects] (=> $ok (and (not (= $val vnil)) (not (= (evt-res $val) vnil))))
+  at recv(events) assume [session-output-is-never-closed-and-carries-non-nil-events-with-objects] (and $ok (not (= $val vnil)) (not (= (evt-res $val) vnil)))
   at recv(events) set lastEvt := $val
   at recv(events) set gver := (ite $ok (obj-rv (evt-res $val)) gver)
   at store(outch) assert [output-channel-replaced-only-on-a-controller-reset] inReset
@@ -891,4 +892,6 @@ package kcache
   loop 1 inv [version-is-that-of-the-last-event-or-restart] (= {curVersion} gver)
   loop 1 inv [no-output-channel-before-the-first-reset] (=> (not resetSeen) (= {outch} vnil))
   loop 1 inv [running] (and (= lc 0) (not (= {session} vnil)) (not (= {ctx} vnil)))
+  loop 1 inv [retry-channel-is-private] (and (not (= {retrych} vnil)) (not (= {retrych} {w.resetch})))
+  loop 1 inv [has-closed-nothing] (forall ((x V)) (not (select $closed x)))
 @*/
